@@ -317,6 +317,21 @@ def handleRollbackAndSave (s : P2P) (confirmed : Frame) (reqs : List Request) : 
     let (sync, r) ← s.sync.saveCurrentState
     return ({ s with sync }, reqs ++ [r])
 
+/-- How many frames the session is ahead of its last confirmed frame (`NULL_FRAME` counts as "no
+frame confirmed yet": the distance is then the current frame itself). -/
+def framesAheadOfConfirmed (s : P2P) : Int :=
+  if s.sync.lastConfirmedFrame == NULL_FRAME then s.sync.currentFrame
+  else s.sync.currentFrame - s.sync.lastConfirmedFrame
+
+/-- The prediction gate at the end of `advance_rollback_frame`: a new frame is simulated only
+while fewer than `max_prediction` frames lie between the last confirmed frame and the current one. -/
+def rollbackGate (s : P2P) (reqs : List Request) : M (P2P × List Request) := do
+  if s.framesAheadOfConfirmed < s.maxPrediction then
+    let (sync, inputs) ← s.sync.synchronizedInputs s.pred s.localConnectStatus
+    let sync := sync.advanceFrame
+    return ({ s with sync, pendingLocalInputs := [] }, reqs ++ [.advance inputs])
+  else return (s, reqs)
+
 def advanceRollbackFrame (s : P2P) (now : Nat) (reqs : List Request) : M (P2P × List Request) := do
   let confirmed ← s.confirmedFrame
   let (s, reqs) ← s.handleRollbackAndSave confirmed reqs
@@ -324,13 +339,7 @@ def advanceRollbackFrame (s : P2P) (now : Nat) (reqs : List Request) : M (P2P ×
   let sync ← s.sync.setLastConfirmedFrame confirmed s.sparse
   let s := { s with sync }
   let s ← s.registerLocalInputs now
-  let framesAhead := if s.sync.lastConfirmedFrame == NULL_FRAME then s.sync.currentFrame
-    else s.sync.currentFrame - s.sync.lastConfirmedFrame
-  if framesAhead < s.maxPrediction then
-    let (sync, inputs) ← s.sync.synchronizedInputs s.pred s.localConnectStatus
-    let sync := sync.advanceFrame
-    return ({ s with sync, pendingLocalInputs := [] }, reqs ++ [.advance inputs])
-  else return (s, reqs)
+  s.rollbackGate reqs
 
 def advanceLockstepFrame (s : P2P) (now : Nat) (reqs : List Request) : M (P2P × List Request) := do
   let s ← s.registerLocalInputs now
